@@ -44,12 +44,13 @@ def call_like_sites(prog, fn):
 
 
 class GateAnalysis:
-    def __init__(self, prog, verifiers, ctx=None):
+    def __init__(self, prog, verifiers, ctx=None, cfg_of=None):
         """verifiers: {label: [short-id patterns]}"""
         self.prog = prog
         self.verifiers = verifiers
         self.ctx = ctx
         self._must = {}
+        self.cfg_of = cfg_of or cfg
 
     def verifier_label(self, fn):
         import fnmatch
@@ -80,7 +81,7 @@ class GateAnalysis:
         if key in self._must:
             return self._must[key]
         self._must[key] = False
-        g = cfg(fn)
+        g = self.cfg_of(fn)
         est = self.blocks_establishing(fn, lab, depth)
         rets = [i for i in range(g.n) if fn.blocks[i]['term']['k'] == 'return']
         r = bool(est) and bool(rets) and g.all_paths_pass(0, est, exits=rets)
@@ -100,9 +101,12 @@ class GateAnalysis:
             seen.add(key)
             if self.ctx:
                 self.ctx.touch(fn)
-            g = cfg(fn)
+            g = self.cfg_of(fn)
+            live = g.reachable_from(0)
             est_blocks = {lab: self.blocks_establishing(fn, lab) for lab in self.verifiers}
             for bb, callees, c in call_like_sites(self.prog, fn):
+                if bb not in live:
+                    continue
                 here = set(established)
                 for lab, blocks in est_blocks.items():
                     for eb in blocks:
